@@ -15,6 +15,7 @@ import (
 	"github.com/alibaba/RedisShake/redis-shake/checkpoint"
 	utils "github.com/alibaba/RedisShake/redis-shake/common"
 	conf "github.com/alibaba/RedisShake/redis-shake/configure"
+	"github.com/alibaba/RedisShake/redis-shake/dbSync/redisConnWrapper"
 	"github.com/alibaba/RedisShake/redis-shake/metric"
 	"pgregory.net/rapid"
 
@@ -114,7 +115,7 @@ func leakCheck(t fataler, path string) bool {
 	return violation(t, "C19", sig, "a configured password appears in the output of path %q (%d records), e.g.: %s", path, len(leaks), what)
 }
 
-var c19Paths = []string{"restore-entry", "full-sync", "incremental", "resume-cuts", "checkpoint-load", "rump", "supervisor", "syncer-topology", "handshake", "reconnect-refused", "sync-end-to-end", "status-documents", "auth-type-unknown", "cluster-discovery", "supervisor-retry", "cluster-connect-failure", "dump-slow-source"}
+var c19Paths = []string{"restore-entry", "full-sync", "incremental", "resume-cuts", "checkpoint-load", "rump", "supervisor", "syncer-topology", "handshake", "reconnect-refused", "sync-end-to-end", "status-documents", "auth-type-unknown", "cluster-discovery", "supervisor-retry", "cluster-connect-failure", "dump-slow-source", "probe-connection"}
 
 // c19Path runs one of the tool's run paths (the other properties' drivers, with the sentinel
 // passwords configured everywhere and the log at a generated level) and scans what was printed.
@@ -195,6 +196,39 @@ func c19RunPath(t *rapid.T, path string) {
 		c05ForcePreDelay = 1300 * time.Millisecond
 		c05Dump(t)
 		c05ForcePreDelay = 0
+	case "probe-connection":
+		// the connections the slot supervisor probes source nodes with (default factory), to a node that is up and to one
+		// that is gone, with passwords that carry characters special to URLs and formats; the supervisor logs the errors
+		// it gets back
+		suffix := rapid.SampledFrom([]string{"", "%zz", "/x", "%", "@host", ":p", "?q#f", " sp", "%s%v"}).Draw(t, "pwSuffix")
+		ln, err := netx.Listen()
+		if err != nil {
+			t.Fatalf("harness: %v", err)
+		}
+		dead := ln.Addr().String()
+		ln.Close()
+		for _, pw := range []string{srcSentinel + suffix, tgtSentinel + suffix} {
+			node := mredis.New()
+			node.Password = pw
+			node.Listen()
+			for _, addr := range []string{node.Addr(), dead} {
+				logcap.RunTree(func() {
+					c, err := redisConnWrapper.DefaultRedisConnFactory(addr, pw, false)
+					if err != nil {
+						rlog.Errorf("GetSlotState - error while discovering slot topology: %v", err)
+						return
+					}
+					if c != nil {
+						if _, err := c.Do("info", "replication"); err != nil {
+							rlog.Errorf("GetSlotState - error while discovering slot topology: %v", err)
+						}
+						c.Close()
+					}
+				})
+			}
+			node.Close()
+		}
+		logcap.Cap.TakeAborts()
 	case "cluster-connect-failure":
 		// a connection of cluster type whose start node cannot be reached (checkpoint load, workers, rump against a cluster)
 		ln, err := netx.Listen()
@@ -242,7 +276,7 @@ func c19RunPath(t *rapid.T, path string) {
 		// an auth type the server does not know (e.g. "adminauth" against a stock Redis): the server's error reply
 		// echoes the arguments, i.e. the password; whatever the tool does with that reply, it must not print it.
 		// The runs are expected to fail; only the output matters.
-		authType := rapid.SampledFrom([]string{"adminauth", "AUTHX", "auth2"}).Draw(t, "authType")
+		authType := rapid.SampledFrom([]string{"adminauth", "AUTHX", "auth2", "auth default", "auth replica-user"}).Draw(t, "authType")
 		src := fsrc.New(srcSentinel, fsrc.Plan{Steps: []fsrc.Step{{Send: []byte("-NOAUTH Authentication required.\r\n"), Sleep: 200 * time.Millisecond, Close: true}}})
 		src.RequireAuth = true
 		ds := newSyncer(0)
@@ -333,7 +367,7 @@ func TestC19EachPath(t *testing.T) {
 		// paths that cost milliseconds are repeated inside one case, so that rare input shapes of theirs are reached
 		reps := 1
 		switch p {
-		case "restore-entry", "full-sync", "checkpoint-load", "handshake", "status-documents", "auth-type-unknown", "cluster-discovery", "supervisor", "syncer-topology", "cluster-connect-failure":
+		case "restore-entry", "full-sync", "checkpoint-load", "handshake", "status-documents", "auth-type-unknown", "cluster-discovery", "supervisor", "syncer-topology", "cluster-connect-failure", "probe-connection":
 			reps = 6
 		}
 		t.Run(strings.ReplaceAll(p, "-", "_"), func(t *testing.T) {
